@@ -48,7 +48,7 @@ def number_literal(text, typ):
         kd, v = evaluate_outcome(lambda: prog.evaluate({}))
         if kd == "escape":
             return False, f"literal {text} under {runner}: {type(v).__name__} escaped"
-        if lo <= val <= hi:
+        if lo <= val <= hi and not (neg and typ != "int"):
             if kd != "value" or int(v) != val:
                 return False, f"literal {text} under {runner}: expected {val}, got {kd} {v!r}"
             if type(v).__name__ != ("IntType" if typ == "int" else "UintType"):
